@@ -93,6 +93,11 @@ func (fs faultsim) runFaulted(c *Case, dir string, target int, plan *sim.FaultPl
 		return false
 	}
 	w := &sim.World{MapOrder: c.Prog.Cfg.MapOrder, Order: order, Disk: disk}
+	var obs *flObserver
+	if c.Prop == "C09" {
+		obs = newFLObserver(path)
+		w.FLObs = obs.On
+	}
 	w.Install()
 	defer sim.Uninstall()
 	finished := false
@@ -302,6 +307,13 @@ func (fs faultsim) runFaulted(c *Case, dir string, target int, plan *sim.FaultPl
 	}
 	out.merge(e.Probes)
 	tagF6(e.Viol)
+	if obs != nil {
+		out.merge(obs.probes)
+		// after the final sync failed the new meta is visible: the "prior state" clause does not apply (F6 territory)
+		if !(disk.FiredOp == "fdatasync" && disk.FiredAfterMeta) {
+			e.Viol = append(e.Viol, obs.viol...)
+		}
+	}
 	return e.Viol, disk.ArmedCalls, disk.Fired, ""
 }
 
